@@ -30,11 +30,119 @@ PID = "C15"
 # ---------------------------------------------------------------------------
 # hook for the end-to-end part
 
+E2E_SCRIPT = 'echo "B $1 $REDO_RUNID" >> "$RV_TRACE"\nredo-ifchange src\nprintf "built(%s)\\n" "$(cat src)"\n'
+
+
+def e2e_cases(tier):
+    """(target relative to project root, cwd relative to project root, [spellings valid from that cwd])"""
+    cases = []
+    # target x at the project root, seen from the root and from d/
+    cases.append(("x", "", ["x", "./x", "d/../x", "{P}/x", ".//x", "ld/../x", "d/./../x"]))
+    cases.append(("x", "d", ["../x", "./../x", "{P}/x", "..//x", "../d/../x", "e/../../x"]))
+    # target d/y (inside a directory that also has a symlinked name ld -> d)
+    cases.append(("d/y", "", ["d/y", "./d/y", "ld/y", "{P}/d/y", "{P}/ld/y", "d//y", "d/e/../y"]))
+    if tier != "quick":
+        cases.append(("d/y", "d", ["y", "./y", "../d/y", "../ld/y", "{P}/d/y", "e/../y"]))
+        cases.append(("d/y", "ld", ["y", "../d/y", "../ld/y"]))
+    return cases
+
+
+def run_e2e(job):
+    root, bindir, target, cwd_rel, s1, s2, mode, idx = job
+    import sqlite3
+    top = os.path.join(root, "e%d" % idx)
+    P = os.path.join(top, "p")
+    res = {"target": target, "cwd": cwd_rel, "spellings": [s1, s2], "mode": mode, "violations": []}
+    try:
+        os.makedirs(P + "/d/e")
+        os.makedirs(top + "/home")
+        os.symlink("d", P + "/ld")
+        Pr = os.path.realpath(P)
+        with open(P + "/src", "w") as fh:
+            fh.write("1\n")
+        tdir = os.path.dirname(target)
+        with open(os.path.join(P, tdir, os.path.basename(target) + ".do"), "w") as fh:
+            fh.write(E2E_SCRIPT.replace("redo-ifchange src", "redo-ifchange %ssrc" % ("../" if tdir else "")).replace(
+                '$(cat src)', '$(cat %ssrc)' % ("../" if tdir else "")))
+        os.makedirs(P + "/.redo")   # pins the project root regardless of the spellings' common prefix
+        trace = top + "/trace"
+        open(trace, "w").close()
+        env = common.base_env(bindir, top + "/home")
+        env["REDO_LOG"] = "0"
+        env["RV_TRACE"] = trace
+        a1, a2 = s1.replace("{P}", Pr), s2.replace("{P}", Pr)
+        argv = {"ifchange": ["redo-ifchange", a1, a2], "redo-j1": ["redo", "--no-log", a1, a2],
+                "redo-j2": ["redo", "--no-log", "-j2", a1, a2]}[mode]
+        cwd = os.path.join(P, cwd_rel) if cwd_rel else P
+        rc, out, err = common.run_cmd(argv, cwd, env, timeout=60)
+        res["rc"] = rc
+
+        def viol(kind, **kw):
+            res["violations"].append(dict(kind=kind, **kw))
+        if rc == -999:
+            viol("e2e-hang")
+            return res
+        if rc != 0:
+            viol("e2e-command-failed", rc=rc, stderr=err[-400:])
+        n = sum(1 for l in open(trace) if l.startswith("B "))
+        if n != 1:
+            viol("e2e-built-%d-times" % n, stderr=err[-300:])
+        tfile = os.path.join(P, target)
+        if rc == 0 and (not os.path.isfile(tfile) or open(tfile).read() != "built(1)\n"):
+            viol("e2e-wrong-content")
+        db = os.path.join(P, ".redo", "db.sqlite3")
+        if os.path.exists(db):
+            con = sqlite3.connect(db)
+            names = [r[0] for r in con.execute("select name from Files")]
+            con.close()
+            same = [nm for nm in names if not nm.startswith("//") and
+                    os.path.realpath(os.path.join(os.path.dirname(os.path.join(Pr, nm)) or Pr)) + "/" + os.path.basename(nm)
+                    == os.path.realpath(os.path.dirname(os.path.join(Pr, target))) + "/" + os.path.basename(target)]
+            if same != [target]:
+                viol("e2e-records-for-one-file", names=same)
+        else:
+            viol("e2e-no-database")
+        return res
+    finally:
+        shutil.rmtree(top, ignore_errors=True)
+
+
 def extra_checks(tier, verdict, cov):
-    """HOOK (to be filled by the E1/E2 end-to-end part of C15): run further checks, report
-    violations through `verdict.report(sig, doc)` and add coverage keys to the dict `cov`
-    (e.g. cov["e2e"] = {...}; add to cov["evaluations"] / cov["distinct_nontrivial"] if wanted)."""
-    return None
+    """End-to-end: every ordered pair of spellings of one file on one command line, from several working directories,
+    with redo-ifchange, redo and redo -j2: exit 0, the script ran once, exactly one Files row (hence one lock) names it."""
+    import concurrent.futures
+    bindir = str(common.build_subject())
+    root = str(common.scratch_root() / "c15e2e")
+    os.makedirs(root, exist_ok=True)
+    jobs = []
+    idx = 0
+    modes = ["ifchange", "redo-j2"] if tier == "quick" else ["ifchange", "redo-j1", "redo-j2"]
+    for target, cwd_rel, sp in e2e_cases(tier):
+        for s1 in sp:
+            for s2 in sp:
+                for mode in modes:
+                    jobs.append((root, bindir, target, cwd_rel, s1, s2, mode, idx))
+                    idx += 1
+    bad = []
+    with concurrent.futures.ProcessPoolExecutor(max_workers=min(16, max(1, common.NCPU))) as ex:
+        for r in ex.map(run_e2e, jobs, chunksize=4):
+            for v in r["violations"]:
+                bad.append((r, v))
+    seen = set()
+    for r, v in sorted(bad, key=lambda rv: (len(rv[0]["spellings"][0]) + len(rv[0]["spellings"][1]), rv[0]["mode"])):
+        sig = {"kind": v["kind"], "mode": r["mode"], "same_spelling_twice": r["spellings"][0] == r["spellings"][1]}
+        key = json.dumps(sig, sort_keys=True)
+        if key in seen:
+            continue
+        seen.add(key)
+        if len(seen) <= 8:
+            verdict.report(sig, {"engine": "E1-e2e", "check": "e2e", "target": r["target"], "cwd": r["cwd"],
+                                 "spellings": r["spellings"], "mode": r["mode"], "violation": v})
+    cov["end_to_end"] = {"command_lines": len(jobs), "cases": [(t, c, len(sp)) for t, c, sp in e2e_cases(tier)], "modes": modes,
+                         "violating": len(bad)}
+    cov["evaluations"] += len(jobs)
+    cov["distinct_nontrivial"] += sum(1 for j in jobs if j[4] != j[5])
+    return bad
 
 
 # ---------------------------------------------------------------------------
@@ -441,7 +549,9 @@ RULE = ("E4: complete enumeration. normpath: every string of length <= L over {a
         "all (cwd, t, base) triples from 6 working directories x ~75 spellings x 15 bases in a real tree with directory "
         "symlinks, judged by lstat identity of the re-joined path. distinct_nontrivial = number of distinct normpath "
         "inputs x with normpath(x) != x, plus the relpath triples and realdirpath inputs for which the kernel gave a "
-        "verdict (entry exists or its parent does)")
+        "verdict (entry exists or its parent does). End to end: every ordered pair of 6-7 spellings (relative, ./, .., "
+        "absolute, doubled slash, through a symlinked directory) of one file on one command line, from 2-3 working "
+        "directories, with redo-ifchange, redo and redo -j2 on the real binary: exit 0, one execution, one Files row")
 
 
 def main(tier):
